@@ -29,9 +29,28 @@ def gen_parse():
     if len(loops) != 2:
         _fail("expected two loops over self.model")
     chain = loops[1].body
+    # a module that is an instance of a handled class but has its own forward is foreign: the guard loop that refuses it must be the
+    # first statement of the dispatch loop, before the isinstance chain
+    OVERRIDE_GUARD = ("for base in (LogicConv2d, LogicConv3d, OrPooling, LogicDense, GroupSum, torch.nn.Flatten, torch.nn.Identity):\n"
+                      "if isinstance(layer, base) and type(layer).forward is not base.forward:\n"
+                      "raise ValueError(f'Cannot compile a {type(layer).__name__}: it overrides the forward of {base.__name__}.')")
+    override_refused = False
+    if len(chain) == 2 and isinstance(chain[0], ast.For) and _flat(ast.unparse(chain[0])) == OVERRIDE_GUARD:
+        override_refused = True
+        chain = chain[1:]
     if len(chain) != 1 or not isinstance(chain[0], ast.If):
         _fail("dispatch loop body is not a single if-chain")
     node = chain[0]
+    # the first loop finds the GroupSum: its offset cannot be expressed by the library (integer counts) and must be refused
+    first_src = _flat(ast.unparse(loops[0]))
+    beta_refused = ("if isinstance(layer, GroupSum):\nif bool(torch.as_tensor(layer.beta).ne(0).any()):\nraise ValueError" in first_src)
+    # _parse_model starts from empty tables (it runs again whenever code is generated)
+    head = [ast.unparse(st) for st in f.body if not (isinstance(st, ast.Expr) and isinstance(st.value, ast.Constant))][:2]
+    resets = head == ["self.conv_layers, self.pooling_layers, self.linear_layers, self.linear_in_dims = ([], [], [], [])",
+                      "self.layer_order, self.num_classes, self.input_shape = ([], None, None)"]
+    g = _method(mod, "CompiledLogicNet", "get_c_code")
+    gbody = [ast.unparse(st) for st in g.body if not (isinstance(st, ast.Expr) and isinstance(st.value, ast.Constant))][:2]
+    reparses = (len(gbody) == 2 and gbody[0].startswith("if self.model is None:\n    raise ValueError(") and gbody[1] == "self._parse_model(verbose=False)")
     handled = []
     else_kind = None
     flatten_default_only = False
@@ -84,6 +103,11 @@ def gen_parse():
     out += f"Definition parse_else : else_kind := {else_kind}.\n"
     out += f"Definition flatten_default_only : bool := {'true' if flatten_default_only else 'false'}.\n"
     out += f"Definition parse_calls_validate : bool := {'true' if validates else 'false'}.\n"
+    out += ("(* an instance of a handled class with its own forward is refused before the isinstance chain (it is a foreign module) *)\n"
+            f"Definition override_forward_refused : bool := {'true' if override_refused else 'false'}.\n"
+            f"Definition groupsum_offset_refused : bool := {'true' if beta_refused else 'false'}.\n"
+            "(* code generation starts by refusing an instance without a model and by parsing the model again, from empty tables *)\n"
+            f"Definition codegen_reparses_model : bool := {'true' if (resets and reparses) else 'false'}.\n")
     out += f"Definition parse_requires_logic_layer : bool := {'true' if no_layers else 'false'}.\n"
     out += "Definition structure_checks : list (string * bool) :=\n  [" + "; ".join(
         f'("{n}", {"true" if s in vsrc else "false"})' for n, s in CHECKS) + "].\n"
